@@ -55,10 +55,65 @@ def run(ctx):
   ds_layout(ctx)
   other_layouts(ctx)
   sharded_triple(ctx)
+  sharded_update_layout(ctx)
   squeeze_lint(ctx)
   validation(ctx)
   dead_stores(ctx)
   transformation_wiring(ctx)
+
+
+def sharded_update_layout(ctx):
+  """R2s: the state returned by sharded_update_fn has the records of the state it received, field by field:
+  ShampooState(count, stats=ShardedShampooStats(global_stats=GlobalShardedParameterStats(statistics, preconditioners,
+  exponents), local_stats=<the parameter tree of local records>)); exponents are passed through; the global arrays keep
+  their stacked form.  (Both records of ShardedShampooStats are positional: swapped arguments still construct.)"""
+  from . import ds_common as D
+  m = ctx.model
+  fi = m.func(MOD, 'distributed_shampoo.sharded_update_fn')
+  ctx.analysed(fi)
+  for metrics in (True, False):
+    for reuse in (True, False):
+      ev = evaluator(m, decide=Decider(truth={'generate_training_metrics': metrics, 'reuse_preconditioner': reuse}),
+                     opaque=D.OPAQUE | {'_convert_to_parameter_stats', '_convert_from_parameter_stats', '_add_metrics_into_local_stats',
+                                        '_update_preconditioners_fn', 'pad_and_maybe_zero_preconditioners'})
+      r = ev.run(fi)
+      ctx.evaluations += 1
+      tag = f'[metrics={int(metrics)},reuse={int(reuse)}]'
+      st = r.args[1] if r.op == 'tuple' and len(r.args) == 2 else None
+      rf = rec_fields(st) if st is not None else None
+      cls = lambda t: t.args[0].split('.')[-1] if t is not None and t.op == 'rec' else None
+      ok = rf is not None and cls(st) == 'ShampooState' and cls(rf.get('stats')) == 'ShardedShampooStats'
+      sf = rec_fields(rf['stats']) if ok else None
+      okg = ok and cls(sf.get('global_stats')) == 'GlobalShardedParameterStats'
+      ctx.ob('C07.R2', fi.short, f'returned state is ShampooState(count, ShardedShampooStats(global record, local tree)) {tag}', okg,
+             'the sharded update must return the records it received: ShampooState / ShardedShampooStats with the global record in '
+             f'`global_stats`; got `{show(st, maxdepth=3)[:200] if st is not None else show(r, maxdepth=2)[:120]}`', ctx.loc(fi),
+             sample='ShampooState(count, ShardedShampooStats(GlobalShardedParameterStats(..), local tree))')
+      if not okg:
+        continue
+      loc_ = sf.get('local_stats', NONE)
+      okl = loc_.op != 'rec' and any(is_ext_call(x, 'jax.tree.unflatten', 'jax.tree_util.tree_unflatten', 'jax.tree_unflatten') for x in walk(loc_)) and \
+          any(fn_name(x) == '_convert_from_parameter_stats' for x in walk(loc_))
+      ctx.ob('C07.R2', fi.short, f'local_stats is the parameter tree of converted local records {tag}', okl,
+             f'`local_stats` must be the parameter tree rebuilt from the per-parameter local records; got `{show(loc_, maxdepth=3)[:160]}`', ctx.loc(fi),
+             sample='tree.unflatten(treedef, [_convert_from_parameter_stats(..)])')
+      gf = rec_fields(sf['global_stats'])
+      ctx.ob('C07.R2', fi.short, f'exponents passed through {tag}', Comparer().same(gf.get('exponents', NONE), spec_term(ev, 'state.stats.global_stats.exponents', {'state': sym('param', fi.short, 'state')})),
+             f'the per-statistic exponents are fixed at init and must be handed on unchanged; got `{show(gf.get("exponents", NONE), maxdepth=3)[:120]}`',
+             ctx.loc(fi), sample='exponents = state.stats.global_stats.exponents')
+      pads = [c for c in ev.calls if c.callee.endswith('.pad_square_matrix') and c.args is not None]
+      ctx.need('C07.R2', len(pads), 1, 'pad_square_matrix call in sharded_update_fn')
+      for c in pads:
+        ms = c.args.get('max_size', NONE)
+        okm = ms.op == 'sub' and path_str(ms.args[0]) == 'state.stats.global_stats.statistics.shape' and is_const(ms.args[1]) and cval(ms.args[1]) in (1, 2, -1, -2)
+        ctx.ob('C07.R2', fi.short, f'statistics re-padded to the stored size {tag}', okm,
+               f'every statistic must be padded back to the matrix size of the stored global array (state.stats.global_stats.statistics.shape[1]); '
+               f'got `{show(ms, maxdepth=4)[:120]}`', ctx.loc(fi, c.node) if c.node is not None else ctx.loc(fi), sample='max_size = global statistics .shape[1]')
+      oks = any(is_ext_call(x, 'jax.numpy.stack') for x in walk(gf.get('statistics', NONE))) and \
+          'global_stats.preconditioners' in show(gf.get('preconditioners', NONE), maxdepth=8)
+      ctx.ob('C07.R2', fi.short, f'global arrays keep their slots {tag}', oks,
+             'the stacked statistics go to `statistics`, the gated preconditioners (old where rejected) to `preconditioners`', ctx.loc(fi),
+             sample='GlobalShardedParameterStats(stacked statistics, gated preconditioners, exponents)')
 
 
 # ------------------------------------------------------------------ R1
